@@ -12,10 +12,10 @@ from ..report import violation
 PID = "C10"
 LEVEL = "model_checking"
 SAVERS = ["mem", "pickle", "weights_only", "safetensors"]
-TARGETS = ["same", "default", "requantize"]
+TARGETS = ["same", "default", "requantize", "same_frozen", "reload_twice"]
 RULE = (
     "for every configuration (6 toy models x 6 weight qtypes incl. the qfloat8 alias, grouped and ungrouped int4/int2 x activations {None,qint8,e4m3} x dtype {f32,f16,bf16}) "
-    "breadth-first search over histories of {freeze, calibrate, save+load cycle (4 serializers x 3 targets: same-quantized, default-quantized, requantize())} to depth 3 (quick) / 4 (thorough), "
+    "breadth-first search over histories of {freeze, calibrate, save+load cycle (4 serializers x 5 targets: same-quantized, default-quantized, requantize(), same-quantized already frozen with other weights, a model that loaded another checkpoint first)} to depth 3 (quick) / 4 (thorough), "
     "continuing with the loaded model (repeated cycles). Each cycle checks: only plain tensors and strings in the state_dict; the loaded model has identical content hash (codes, scales, "
     "zero-points, qtypes, group sizes, activation scales, float weights when unfrozen), bit-identical outputs on two probe inputs, parameters on the target's device; saving again gives an "
     "equal state_dict key by key. Non-trivial = save/load cycles."
@@ -61,6 +61,23 @@ def _target(cfg, target, sd):
 
     if target == "same":
         m = models.build_quantized(cfg["model"], cfg["dt"], cfg["w"], cfg["a"])
+        m.load_state_dict(sd)
+        return m
+    if target in ("same_frozen", "reload_twice"):
+        # a target that already holds (other) frozen weights: frozen before loading / a different checkpoint loaded first
+        from optimum.quanto import freeze
+
+        m = models.build_quantized(cfg["model"], cfg["dt"], cfg["w"], cfg["a"])
+        with torch.no_grad():
+            for p in m.parameters():
+                if p.dtype.is_floating_point and p.ndim >= 1:
+                    p.mul_(-0.5)
+        freeze(m)
+        if target == "reload_twice":
+            other = {k: (v.clone() if isinstance(v, torch.Tensor) else v) for k, v in m.state_dict().items()}
+            m2 = models.build_quantized(cfg["model"], cfg["dt"], cfg["w"], cfg["a"])
+            m2.load_state_dict(other)
+            m = m2
         m.load_state_dict(sd)
         return m
     m = models.build_float(cfg["model"], cfg["dt"])
@@ -132,6 +149,8 @@ def _explore(cfg, tier, only=None):
         case = {"cfg": cfg, "tier": tier, "history": hist, "event": ev}
         journal(repr(case))
         frozen = all(m.frozen for _, m in models.qmodules(st.model) if m.weight_qtype is not None)
+        if target in ("same_frozen", "reload_twice") and not frozen:
+            return None  # loading float weights into an already frozen target is not a fresh-target round trip
         has_ln_act = cfg["model"] == "ln" and cfg["a"] is not None
         lowbit = cfg["w"] in ("qint4", "qint2")
         fields = {"model": cfg["model"], "weights": cfg["w"], "activations": cfg["a"], "dtype": cfg["dt"], "saver": saver, "target": target, "frozen": frozen,
